@@ -198,6 +198,10 @@ def build(cfg, src):
         if mix == "plain":
             payload = stream(sid, data)
             sdata = data
+        elif mix == "offsets-descending":
+            # the later datagram carries the earlier part of the stream (captured out of order / retransmitted)
+            payload = stream(sid, data, offset=(n - 1 - i) * dl)
+            sdata = data
         elif mix == "no-len":
             payload = cat(ack(i), stream(sid, data, explicit_len=False))
             sdata = data
